@@ -293,7 +293,11 @@ func oasTypes(d *ioDoc, refPrefix string, shape map[string]any) m {
 			}
 			out[t.Name] = m{"type": "string", "enum": vs}
 		case "array":
-			out[t.Name] = m{"type": "array", "items": oasPrim(t.Base)}
+			items := oasPrim(t.Base)
+			if f, has := items["format"].(string); has && shape != nil {
+				shape[t.Name] = "format=" + f
+			}
+			out[t.Name] = m{"type": "array", "items": items}
 		default:
 			p := oasPrim(t.Base)
 			if t.Base == "int" && len(t.Name)%2 == 0 {
